@@ -116,7 +116,33 @@ func (st *State) readLeaf(kind PtrKind, key string, base, idx *Term, leaf *Sort)
 	}
 }
 
+// watermark is the current allocation watermark: every existing object has a smaller reference.
+func (st *State) watermark() *Term {
+	return Add(st.vc.allocBase, IntC(int64(st.vc.nAlloc)))
+}
+
+// refBound: references read from a heap key were stored there no later than the key's last write.
+func (st *State) refBound(key string) *Term {
+	if b, ok := st.kbase[key]; ok {
+		return b
+	}
+	if _, ok := st.heap[key]; ok || st.vc.discovery {
+		if h, ok := st.heap[key]; ok && h.IsVar && len(h.Op) > 3 && h.Op[:3] == "H0:" {
+			return st.vc.A0
+		}
+	}
+	return st.watermark()
+}
+
+func (st *State) touchKey(key string) {
+	if st.kbase == nil {
+		st.kbase = map[string]*Term{}
+	}
+	st.kbase[key] = st.watermark()
+}
+
 func (st *State) writeLeaf(kind PtrKind, key string, base, idx *Term, v *Term) {
+	st.touchKey(key)
 	var i2 *Sort
 	if idx != nil {
 		i2 = idx.Sort
@@ -137,7 +163,7 @@ func (st *State) writeLeaf(kind PtrKind, key string, base, idx *Term, v *Term) {
 func (st *State) loadKey(kind PtrKind, key string, base, idx *Term, t types.Type, _ interface{}) Val {
 	if s := scalarSort(t); s != nil {
 		v := st.readLeaf(kind, key, base, idx, s)
-		st.vc.loadFacts(st, v, t)
+		st.vc.loadFactsB(st, v, t, st.refBound(key))
 		if _, isFn := under(t).(*types.Signature); isFn && st.vc.prog != nil && st.vc.prog.pureFields[key] {
 			return &FuncV{Fn: pureField(key), Term: v}
 		}
@@ -151,6 +177,7 @@ func (st *State) loadKey(kind PtrKind, key string, base, idx *Term, t types.Type
 			for _, f := range sliceFacts(sv) {
 				st.vc.assume(st, f)
 			}
+			st.vc.assume(st, Lt(sv.Arr, st.refBound(key+"#arr")))
 		}
 		return sv
 	case *types.Interface:
@@ -278,6 +305,7 @@ func (st *State) havocPrefix(prefix string, why string) {
 		if keyHasPrefix(name, prefix) {
 			ki := st.vc.reg.m[name]
 			st.heap[name] = Fresh("hv:"+name, ki.Sort)
+			st.touchKey(name)
 		}
 	}
 	st.vc.havocLog = append(st.vc.havocLog, prefix+" ("+why+")")
